@@ -13,6 +13,9 @@ def tasks(tier, seed):
             cfgs += [(2, 3, 3, z) for z in [(1,), (0, 1), (2,)]]
         for n, d, K, z in cfgs:
             t.append(("contracts.sparse_sel", "task", (fam, n, d, K, z, seed), to, f"{fam}[n={n},d={d},K={K},zero={list(z)}]"))
+    # M = 0 is legal: first-layer rows are zero while the skip rows are not -- the selection is read off the skip weights
+    t.append(("contracts.sparse_sel", "task", ("sparse_mlp", 2, 2, 2, (), seed, (0, 1)), to, "sparse_mlp[n=2,d=2,K=2,zero=[],first layer zero=[0,1]]"))
+    t.append(("contracts.sparse_sel", "task", ("sparse_mlp", 2, 3, 2, (1,), seed, (0,)), to, "sparse_mlp[n=2,d=3,K=2,zero=[1],first layer zero=[0]]"))
     # groups stay whole: group prox contracts (all partitions)
     from contracts.prox import partitions
     for d in (2, 3):
